@@ -214,6 +214,66 @@ pub fn run(args: &[String]) -> i32 {
             handle.join().unwrap();
             0
         }
+        Some("leafws") => {
+            // which node kinds own leaves (outside WhiteSpace) that contain white space? (developer statistic)
+            let root = std::path::PathBuf::from(args.get(1).cloned().unwrap_or_else(|| "/verif".to_string()));
+            let handle = std::thread::Builder::new()
+                .stack_size(1 << 30)
+                .spawn(move || {
+                    let corpus = crate::corpus::Corpus::load(&root);
+                    let mut all: std::collections::BTreeMap<String, (usize, String)> = Default::default();
+                    let mut texts: Vec<(sv::Grammar, String)> = corpus.sv.iter().map(|f| (sv::Grammar::Sv, f.text.clone())).collect();
+                    texts.extend(corpus.lib.iter().map(|f| (sv::Grammar::Lib, f.text.clone())));
+                    let mut seed = 99u64;
+                    for _ in 0..1500 {
+                        let data: Vec<u32> = (0..900).map(|_| lcg(&mut seed)).collect();
+                        let mut t = Tape::new(&data);
+                        let p = svgen::generate_mixed(&mut t, &svgen::Cfg::default());
+                        let mut f = Feats::default();
+                        texts.push((sv::Grammar::Sv, p.render(&mut t, &TriviaCfg::full(), &mut f)));
+                        let toks = crate::gen::libgen::generate_tokens(&mut t);
+                        texts.push((sv::Grammar::Lib, crate::gen::libgen::render_tokens(&toks, &mut t)));
+                    }
+                    for (g, text) in &texts {
+                        if let Ok((tree, pp)) = sv::parse_text(*g, text, false) {
+                            let mut stack: Vec<String> = Vec::new();
+                            let mut ws = 0usize;
+                            for e in tree.into_iter().event() {
+                                match e {
+                                    sv::NodeEvent::Enter(n) => {
+                                        if let sv::RefNode::WhiteSpace(_) = n {
+                                            ws += 1;
+                                        }
+                                        if let sv::RefNode::Locate(l) = n {
+                                            if ws == 0 {
+                                                let t = &pp[l.offset..l.offset + l.len];
+                                                if t.chars().any(|c| c.is_whitespace()) {
+                                                    let k = stack.iter().rev().take(2).cloned().collect::<Vec<_>>().join("<");
+                                                    let e = all.entry(k).or_insert((0, t.to_string()));
+                                                    e.0 += 1;
+                                                }
+                                            }
+                                        }
+                                        stack.push(sv::kind(&n));
+                                    }
+                                    sv::NodeEvent::Leave(n) => {
+                                        stack.pop();
+                                        if let sv::RefNode::WhiteSpace(_) = n {
+                                            ws -= 1;
+                                        }
+                                    }
+                                }
+                            }
+                        }
+                    }
+                    for (k, (c, ex)) in &all {
+                        println!("{:6} {} e.g. {:?}", c, k, sv::clip(ex, 50));
+                    }
+                })
+                .unwrap();
+            handle.join().unwrap();
+            0
+        }
         Some("regions") => {
             let n: usize = args.get(1).and_then(|s| s.parse().ok()).unwrap_or(20);
             let mut seed: u64 = args.get(2).and_then(|s| s.parse().ok()).unwrap_or(1);
